@@ -23,6 +23,8 @@ EXPLANATION = (
     'necessary condition of the property for all world sizes, strategies, intervals and interleavings at once; it does '
     'not decide runtime sizes, shapes as numbers, or backend progress.')
 
+NOT_DECIDED = 'runtime sizes and roots as numbers; backend progress; hooks re-entered without an intervening step'
+
 
 def run(ctx: Ctx) -> None:
     ctx.assumptions |= {'A2', 'A3', 'A5'}
